@@ -23,6 +23,7 @@ mod c16;
 mod c17;
 mod c18;
 mod c19;
+mod c20;
 mod codes;
 mod dec;
 mod arith;
@@ -105,6 +106,7 @@ fn main() {
         "C17" => c17::run(&run),
         "C18" => c18::run(&run),
         "C19" => c19::run(&run),
+        "C20" => c20::run(&run),
         _ => common::machinery(&format!("no check for {}", id)),
     };
     std::process::exit(code);
